@@ -40,6 +40,20 @@
 (*   ReadyEventually: the instance answers its API.                            *)
 (*   SilenceSurvives / NoRepeat: positive observations (a delivery, an API    *)
 (*     answer), no control needed.                                            *)
+(* Reloads (C17, C07): `reload.begin` / `reload` events frame a reload        *)
+(* request (no observation is made in between); inforce is the start's or the *)
+(* last ACCEPTED (answer 200) reload's configuration.                          *)
+(*   RejectedReloadKeepsConfig / AcceptedReloadTakesEffect: AtLeastOnce's      *)
+(*     obligation is a delivery to the receiver of the configuration in force *)
+(*     (named after the outcome of the instance's last reload request; control *)
+(*     evidence for a single instance: it had delivered to that receiver       *)
+(*     before, and the receiver answered a direct request during the           *)
+(*     extension), and every delivery goes to the receiver of the              *)
+(*     configuration in force, of the one in force until rltol (4.2 s) ago,    *)
+(*     or of the reload in flight;                                             *)
+(*   StatusShowsConfigInForce / ReceiversAgree: positive observations at       *)
+(*     quiescence (status text; receivers of GET /api/v2/alerts against the    *)
+(*     receivers of the dispatcher's groups, GET /api/v2/alerts/groups).       *)
 EXTENDS AppSys, Json
 
 CONSTANT TraceFile
@@ -49,18 +63,20 @@ VARIABLES l,
           par,     \* parameters of the current run
           seen,    \* i -> number of members the instance listed last
           resp,    \* i -> the last observation was answered completely
-          ctl,     \* deliveries of control alerts: [i, t, ext]
-          ext      \* the run is in its extension (a control alert went to every running instance)
-tvars == <<vars, l, par, seen, resp, ctl, ext>>
+          ctl,     \* deliveries of control alerts: [i, c, t, ext]
+          ext,     \* the run is in its extension (a control alert went to every running instance)
+          cand,    \* i -> configuration of the reload request in flight, "-"
+          probed   \* the receiver answered a direct request during the extension
+tvars == <<vars, l, par, seen, resp, ctl, ext, cand, probed>>
 
-NoLim == [start |-> 0, stop |-> 0, kill |-> 0, post |-> 0, sil |-> 0, exp |-> 0]
+NoLim == [start |-> 0, stop |-> 0, kill |-> 0, post |-> 0, sil |-> 0, exp |-> 0, rl |-> 0]
 ev == Trace[l]
 ToSetOf(s) == {s[k] : k \in 1 .. Len(s)}
 MaxI(x, y) == IF x > y THEN x ELSE y
 
 NoPar == [gw |-> 0, gi |-> 0, ri |-> 0, pt |-> 0, st |-> 0, mint |-> 0, slack |-> 0, rslack |-> 0,
           dupmin |-> [a \in Alerts |-> 0], dupmax |-> 0, repmax |-> 0, late |-> 0, ptol |-> 0, maint |-> 0, dupfloor |-> 0, n |-> 0, solo |-> FALSE, run |-> "", alerts |-> {},
-          base |-> 0, hook |-> 0, np |-> [a \in Alerts |-> 0], full |-> [a \in Alerts |-> FALSE]]
+          base |-> 0, hook |-> 0, rltol |-> 0, np |-> [a \in Alerts |-> 0], full |-> [a \in Alerts |-> FALSE]]
 
 Blank ==
   /\ now' = 0
@@ -79,9 +95,13 @@ Blank ==
   /\ seen' = [i \in Inst |-> 0]
   /\ resp' = [i \in Inst |-> FALSE]
   /\ ctl' = {} /\ ext' = FALSE
+  /\ api' = [i \in Inst |-> "-"] /\ rcv' = api' /\ grp' = api'
+  /\ inforce' = [i \in Inst |-> "-"] /\ prevc' = inforce' /\ chg' = [i \in Inst |-> 0]
+  /\ lastrl' = [i \in Inst |-> "none"]
+  /\ cand' = [i \in Inst |-> "-"] /\ probed' = FALSE
 
 \* the AppSys variables no property reads keep their initial values
-Unused == UNCHANGED <<due, pend, nfl, snapN, snapS, mt, net, cnt, last>>
+Unused == UNCHANGED <<due, pend, nfl, snapN, snapS, mt, net, cnt, last, cfg, file>>
 
 TraceInit ==
   /\ l = 1 /\ par = NoPar
@@ -89,17 +109,20 @@ TraceInit ==
   /\ life = [i \in Inst |-> "new"] /\ upAt = [i \in Inst |-> 0] /\ rdy = [i \in Inst |-> FALSE]
   /\ has = [i \in Inst |-> {}] /\ sv = [i \in Inst |-> [a \in Alerts |-> 0]]
   /\ due = [i \in Inst |-> [a \in Alerts |-> NONE]] /\ pend = [i \in Inst |-> [a \in Alerts |-> Idle]]
-  /\ nfl = [i \in Inst |-> [a \in Alerts |-> NONE]] /\ snapN = nfl /\ snapS = sv
+  /\ nfl = [i \in Inst |-> NoLog] /\ snapN = nfl /\ snapS = sv
   /\ mt = [i \in Inst |-> 0] /\ net = {} /\ cnt = 0 /\ last = 0
   /\ pos = [i \in Inst |-> 0] /\ sent = << >> /\ gen = [i \in Inst |-> 0]
   /\ since = [i \in Inst |-> [a \in Alerts |-> NONE]]
   /\ owe = [i \in Inst |-> [a \in Alerts |-> NoOwe]] /\ told = [i \in Inst |-> [a \in Alerts |-> NoTold]]
   /\ healthy = FALSE /\ posted = FALSE /\ expired = {}
   /\ seen = [i \in Inst |-> 0] /\ resp = [i \in Inst |-> FALSE] /\ ctl = {} /\ ext = FALSE
+  /\ cfg = [i \in Inst |-> "-"] /\ api = cfg /\ file = 0 /\ rcv = cfg /\ grp = cfg
+  /\ inforce = cfg /\ prevc = cfg /\ chg = [i \in Inst |-> 0] /\ lastrl = [i \in Inst |-> "none"]
+  /\ cand = cfg /\ probed = FALSE
 
 Same(vs) == UNCHANGED vs
-Obs1 == <<life, upAt, rdy, has, sv, pos>>
-Tr1 == <<par, seen, resp, ctl, ext>>
+Obs1 == <<life, upAt, rdy, has, sv, pos, api, rcv, grp>>
+Tr1 == <<par, seen, resp, ctl, ext, cand, probed>>
 
 \* ---- one action per kind of event; every one sets now' = ev.t and ends with Clock -------------
 Cfg ==
@@ -110,7 +133,7 @@ Cfg ==
              late |-> ev.late, ptol |-> ev.ptol, maint |-> ev.maint, dupfloor |-> ev.dupfloor,
              n |-> ev.n, solo |-> ev.solo, run |-> ev.run, alerts |-> ToSetOf(ev.alerts),
              base |-> ev.pt,                                   \* no latency measured yet: NoDuplicate gives no verdict
-             hook |-> ev.hook + ev.n * ev.stagger, np |-> [a \in Alerts |-> 0], full |-> [a \in Alerts |-> FALSE]]
+             rltol |-> ev.rltol, hook |-> ev.hook + ev.n * ev.stagger, np |-> [a \in Alerts |-> 0], full |-> [a \in Alerts |-> FALSE]]
   /\ healthy' = ~ev.solo
 
 EvStart ==
@@ -123,8 +146,9 @@ EvStart ==
   /\ pos' = [pos EXCEPT ![i] = 0]
   /\ seen' = [seen EXCEPT ![i] = IF par.solo THEN 1 ELSE 0]
   /\ resp' = [resp EXCEPT ![i] = TRUE]
-  /\ BkStart(i)
-  /\ UNCHANGED <<par, ctl, ext>>
+  /\ api' = [api EXCEPT ![i] = "-"] /\ rcv' = [rcv EXCEPT ![i] = "-"] /\ grp' = [grp EXCEPT ![i] = "-"]
+  /\ BkStart(i, ev.c)
+  /\ UNCHANGED <<par, ctl, ext, cand, probed>>
 
 EvDown ==
   LET i == ev.i
@@ -139,7 +163,7 @@ EvDown ==
   /\ rdy' = [rdy EXCEPT ![i] = FALSE]
   /\ has' = [has EXCEPT ![i] = {}]
   /\ BkDown(i, keepN, keepS)
-  /\ UNCHANGED <<upAt, sv, pos, par, seen, resp, ctl, ext>>
+  /\ UNCHANGED <<upAt, sv, pos, api, rcv, grp, par, seen, resp, ctl, ext, cand, probed>>
 
 AllReady == \A i \in 1 .. par.n : life[i] = "up" /\ rdy[i] /\ resp[i] /\ seen[i] = par.n
 
@@ -152,7 +176,7 @@ EvPost ==
   IN
   /\ BkPost(AllReady /\ \A k \in 1 .. Len(ev.codes) : ev.codes[k] = 200)
   /\ par' = [par EXCEPT !.np = np, !.full = full, !.dupmin = DupMinOf(par.base, par.hook, np, full)]
-  /\ Same(Obs1) /\ UNCHANGED <<seen, resp, ctl, ext>>
+  /\ Same(Obs1) /\ UNCHANGED <<seen, resp, ctl, ext, cand, probed>>
 
 EvSil ==
   /\ IF ev.code = 200 THEN BkAck(ev.i, ev.a, ev.t) ELSE BkSame
@@ -174,36 +198,51 @@ EvObs ==
             /\ has' = [has EXCEPT ![i] = ToSetOf(ev.has) \cap Alerts]
             /\ sv' = [sv EXCEPT ![i] = [a \in Alerts |-> IF a \in DOMAIN ev.sil THEN ev.sil[a] ELSE 0]]
             /\ seen' = [seen EXCEPT ![i] = ev.n]
+            /\ api' = [api EXCEPT ![i] = ev.stc] /\ rcv' = [rcv EXCEPT ![i] = ev.rcv] /\ grp' = [grp EXCEPT ![i] = ev.grp]
        ELSE /\ has' = [has EXCEPT ![i] = {}]                 \* not demonstrably holding anything
-            /\ UNCHANGED <<rdy, pos, sv, seen>>
+            /\ UNCHANGED <<rdy, pos, sv, seen, api, rcv, grp>>
   /\ healthy' = (healthy /\ (~posted \/ ~ev.ok \/ ev.n = par.n))
-  /\ UNCHANGED <<life, upAt, sent, gen, owe, told, posted, expired, par, ctl, ext>>
+  /\ UNCHANGED <<life, upAt, sent, gen, owe, told, posted, expired, bkr, par, ctl, ext, cand, probed>>
 
 \* a webhook delivery; one from an instance that is being torn down counts as a delivery
 \* but is not something its data directory has to remember
 EvDeliver ==
   LET i == ev.i IN
   /\ IF i \in Inst /\ ev.a \in Alerts
-       THEN IF life[i] = "up" THEN BkSend(i, ev.a, ev.t, par)
-            ELSE /\ sent' = Append(sent, [i |-> i, a |-> ev.a, t |-> ev.t, g |-> gen[i], owe |-> 0, rep |-> FALSE])
-                 /\ UNCHANGED <<gen, owe, told, healthy, posted, expired>>
+       THEN IF life[i] = "up" THEN BkSend(i, ev.a, ev.c, ev.t, par)
+            ELSE /\ sent' = Append(sent, [i |-> i, a |-> ev.a, c |-> ev.c, t |-> ev.t, g |-> gen[i], owe |-> 0, rep |-> FALSE, ok |-> TRUE])
+                 /\ UNCHANGED <<gen, owe, told, healthy, posted, expired, bkr>>
        ELSE BkSame
   /\ Same(Obs1) /\ Same(Tr1)
 
 EvCtl ==
-  /\ ctl' = ctl \cup {[i |-> ev.i, t |-> ev.t, ext |-> ext]}
-  /\ BkSame /\ Same(Obs1) /\ UNCHANGED <<par, seen, resp, ext>>
+  /\ ctl' = ctl \cup {[i |-> ev.i, c |-> ev.c, t |-> ev.t, ext |-> ext]}
+  /\ BkSame /\ Same(Obs1) /\ UNCHANGED <<par, seen, resp, ext, cand, probed>>
 
 EvCtlPost ==
   /\ ext' = (ext \/ ev.ext)
-  /\ BkSame /\ Same(Obs1) /\ UNCHANGED <<par, seen, resp, ctl>>
+  /\ BkSame /\ Same(Obs1) /\ UNCHANGED <<par, seen, resp, ctl, cand, probed>>
+
+EvReloadBegin ==
+  /\ cand' = [cand EXCEPT ![ev.i] = ev.c]
+  /\ BkSame /\ Same(Obs1) /\ UNCHANGED <<par, seen, resp, ctl, ext, probed>>
+
+\* the reload request has been answered: 200 = accepted
+EvReload ==
+  /\ cand' = [cand EXCEPT ![ev.i] = "-"]
+  /\ BkReload(ev.i, ev.c, ev.code = 200, ev.t)
+  /\ Same(Obs1) /\ UNCHANGED <<par, seen, resp, ctl, ext, probed>>
+
+EvProbe ==
+  /\ probed' = (probed \/ ev.ok)
+  /\ BkSame /\ Same(Obs1) /\ UNCHANGED <<par, seen, resp, ctl, ext, cand>>
 
 EvLat ==
   LET m == MaxI(10 * ev.ms, par.dupfloor)
       b == IF par.base = par.pt THEN m ELSE MaxI(par.base, m)
   IN
   /\ par' = [par EXCEPT !.base = b, !.dupmin = DupMinOf(b, par.hook, par.np, par.full)]
-  /\ BkSame /\ Same(Obs1) /\ UNCHANGED <<seen, resp, ctl, ext>>
+  /\ BkSame /\ Same(Obs1) /\ UNCHANGED <<seen, resp, ctl, ext, cand, probed>>
 
 Other == BkSame /\ Same(Obs1) /\ Same(Tr1)
 
@@ -222,6 +261,9 @@ TraceStep ==
        [] ev.ev = "ctl" -> EvCtl
        [] ev.ev = "ctlpost" -> EvCtlPost
        [] ev.ev = "lat" -> EvLat
+       [] ev.ev = "reload.begin" -> EvReloadBegin
+       [] ev.ev = "reload" -> EvReload
+       [] ev.ev = "probe" -> EvProbe
        [] OTHER -> Other
   /\ IF ev.ev = "cfg" THEN TRUE ELSE now' = ev.t /\ Clock(ev.t)
 
@@ -233,8 +275,18 @@ N(kind, clause, detail) == Note([run |-> par'.run, line |-> l, t |-> now', kind 
 \* the pairs that make AtLeastOnce fail in the state after the step
 Starved == {q \in Inst \X Alerts :
               /\ since'[q[1]][q[2]] # NONE /\ now' - since'[q[1]][q[2]] > Bound(par', pos'[q[1]])
-              /\ ~\E k \in 1 .. Len(sent') : sent'[k].a = q[2]}
-Controlled(q) == \E c \in ctl' : c.ext /\ c.t >= since'[q[1]][q[2]]
+              /\ ~\E k \in 1 .. Len(sent') : sent'[k].a = q[2] /\ sent'[k].c = inforce'[q[1]]}
+\* control evidence: a control alert was delivered during the extension; for an instance whose own
+\* dispatcher is in question (single instance): it had delivered to that receiver before and the receiver
+\* answered a direct request during the extension
+Controlled(q) ==
+  \/ \E c \in ctl' : c.ext /\ c.t >= since'[q[1]][q[2]]
+  \/ /\ probed'
+     /\ \/ \E k \in 1 .. Len(sent') : sent'[k].i = q[1] /\ sent'[k].c = inforce'[q[1]]
+        \/ \E c \in ctl' : c.i = q[1] /\ c.c = inforce'[q[1]]
+AloClause(i) == IF lastrl'[i] = "rejected" THEN "C17_RejectedReloadKeepsConfig"
+                ELSE IF lastrl'[i] = "good" THEN "C17_AcceptedReloadTakesEffect"
+                ELSE IF par'.solo THEN "C01_AtLeastOnce" ELSE "C08_AtLeastOnce"
 ClosePairs == {pr \in (1 .. Len(sent')) \X (1 .. Len(sent')) :
                  /\ pr[1] < pr[2] /\ sent'[pr[1]].a = sent'[pr[2]].a
                  /\ sent'[pr[2]].t - sent'[pr[1]].t <= par'.dupmin[sent'[pr[2]].a] /\ pr[2] = Len(sent')}
@@ -245,8 +297,9 @@ Report ==
   /\ ((ev.ev = "end" /\ ~AtLeastOnceP(par)') =>
         \A q \in Starved :
           IF Controlled(q)
-            THEN N("violation", IF par'.solo THEN "C01_AtLeastOnce" ELSE "C08_AtLeastOnce",
-                   [i |-> q[1], a |-> q[2], since |-> since'[q[1]][q[2]], pos |-> pos'[q[1]], bound |-> Bound(par', pos'[q[1]])])
+            THEN N("violation", AloClause(q[1]),
+                   [i |-> q[1], a |-> q[2], since |-> since'[q[1]][q[2]], pos |-> pos'[q[1]], bound |-> Bound(par', pos'[q[1]]),
+                    in_force |-> inforce'[q[1]], last_reload |-> lastrl'[q[1]]])
             ELSE N("doubt", "AtLeastOnce_without_control_delivery", [i |-> q[1], a |-> q[2]]))
   /\ ((ev.ev = "deliver" /\ Len(sent') > Len(sent)) =>
         /\ ((~NoDuplicateP(par)' /\ DupPairs(par)' # DupPairs(par)) =>
@@ -255,10 +308,20 @@ Report ==
               N("doubt", "duplicate_within_gossip_latency", [second |-> sent'[Len(sent')], dupmin |-> par'.dupmin]))
         /\ ((healthy' /\ par'.n > 1 /\ ev.a \in Alerts /\ par'.dupmin[ev.a] >= par'.pt /\ \E k \in 1 .. Len(sent) : sent[k].a = ev.a /\ ev.t - sent[k].t <= par'.dupmax) =>
               N("doubt", "duplicate_but_gossip_not_faster_than_peer_timeout", [second |-> sent'[Len(sent')], dupmin |-> par'.dupmin]))
+        /\ ((~RoutedByConfigInForceP' /\ ~sent'[Len(sent')].ok /\ ev.c # cand[ev.i]) =>
+              N("violation", IF lastrl[ev.i] = "rejected" THEN "C17_RejectedReloadKeepsConfig" ELSE "C17_AcceptedReloadTakesEffect",
+                [delivered |-> sent'[Len(sent')], in_force |-> inforce[ev.i], before |-> prevc[ev.i], replaced_at |-> chg[ev.i], last_reload |-> lastrl[ev.i]]))
         /\ ((~NoRepeatP' /\ sent'[Len(sent')].rep) =>
               N("violation", "C11_NoRepeatAfterRestart", [second |-> sent'[Len(sent')], first |-> told[ev.i][ev.a]]))
         /\ ((~SilenceSurvivesP' /\ sent'[Len(sent')].owe = 2) =>
               N("violation", "C11_SilenceSurvivesRestart", [delivered |-> sent'[Len(sent')], acked |-> owe[ev.i][ev.a].t])))
+  /\ ((ev.ev = "obs" /\ ev.ok /\ life[ev.i] = "up") =>
+        /\ ((~StatusShowsConfigInForceP' /\ api'[ev.i] \notin {inforce'[ev.i], "-"}) =>
+              N("violation", "C17_StatusShowsConfigInForce", [i |-> ev.i, status_shows |-> api'[ev.i], in_force |-> inforce'[ev.i], last_reload |-> lastrl'[ev.i]]))
+        /\ ((~ReceiversAgreeP' /\ rcv'[ev.i] # "-" /\ grp'[ev.i] # "-" /\ rcv'[ev.i] # grp'[ev.i]) =>
+              N("violation", "C07_ReceiversAgree", [i |-> ev.i, api_receivers |-> rcv'[ev.i], dispatcher_groups |-> grp'[ev.i], in_force |-> inforce'[ev.i], last_reload |-> lastrl'[ev.i]])))
+  /\ ((ev.ev = "reload" /\ ev.kind = "good" /\ ev.code # 200) => N("doubt", "good_configuration_refused", [i |-> ev.i, c |-> ev.c, code |-> ev.code]))
+  /\ ((ev.ev = "reload" /\ ev.kind # "good" /\ ev.code = 200) => N("doubt", "bad_configuration_accepted", [i |-> ev.i, c |-> ev.c, how |-> ev.how]))
   /\ (ev.ev = "obs" =>
         /\ (~SilenceSurvivesP' => \A q \in Lost : (q[1] = ev.i /\ ev.ok) =>
               N("violation", "C11_SilenceSurvivesRestart", [i |-> q[1], a |-> q[2], acked |-> owe'[q[1]][q[2]].t, listed |-> sv'[q[1]][q[2]]]))
